@@ -65,9 +65,9 @@ func (c *c19Checker) After(w *World, ev *Event) []Failure {
 	var fs []Failure
 	// The configuration may carry its own notion of special schemes and default ports
 	// (WithSpecialSchemes, the Semantic profile); the harness knows what it configured.
-	special, defPort := cfgSpecial(w.Cfg)
 	for _, id := range w.uids() {
 		o := w.Cur[id]
+		special, defPort := cfgSpecial(w.U[id].Cfg) // the table of the parser the URL belongs to
 		ctx := []string{"url", fmt.Sprintf("u%d", id), "href", q(o.Href), "prov", w.U[id].Prov}
 		add := func(clause string, kv ...string) {
 			fs = append(fs, fail(clause, append(append([]string{}, ctx...), kv...)...))
